@@ -125,9 +125,10 @@ def module_text(body, wrapper, position):
         position = "function"
     w = WRAPPERS[wrapper]
     code = w % ((BODIES[body],) * w.count("%s"))
+    # (the body sits in a block of its own: a body that ends in "return ..." is only legal Lua as the last statement of a block)
     if position == "function":
-        return "local e = {}\nfunction e.run(frame)\n" + code + "\nreturn 'survived'\nend\nreturn e\n"
-    return "local e = {}\nlocal frame = mw.getCurrentFrame()\n" + code + "\nfunction e.run(frame) return 'survived' end\nreturn e\n"
+        return "local e = {}\nfunction e.run(frame)\ndo " + code + " end\nreturn 'survived'\nend\nreturn e\n"
+    return "local e = {}\nlocal frame = mw.getCurrentFrame()\ndo " + code + " end\nfunction e.run(frame) return 'survived' end\nreturn e\n"
 
 
 def fresh_results():
